@@ -124,7 +124,19 @@ def showCent : Except Fault (FQ × FQ) → String
   | .ok (x, y) => s!"({showFQ x},{showFQ y})"
   | .error e => s!"panic:{repr e}"
 
-def orderOf (p : Poly) : Option Nat := Spec.shellIndex p
+/-- which ring is the shell, and whether the polygon is valid only in the wider class `ValidPolyT`
+(rings touching in single points) -/
+def orderOf (p : Poly) : Option (Nat × Bool) :=
+  match Spec.shellIndex p with
+  | some i => some (i, false)
+  | none => (Spec.shellIndexT p).map (·, true)
+def shellAt (o : Option (Nat × Bool)) : Nat := match o with | some (i, _) => i | none => 0
+def validTag (o : Option (Nat × Bool)) : String :=
+  match o with
+  | none => "invalid"
+  | some (_, true) => "valid-touch"
+  | some (0, false) => "valid"
+  | some (_, false) => "valid-holefirst"
 def reorder (i : Nat) (p : Poly) : Poly := Spec.moveFront i p
 
 def judgeArea (tag : String) (p : Poly) (rhs : Tok) : String :=
@@ -132,8 +144,8 @@ def judgeArea (tag : String) (p : Poly) (rhs : Tok) : String :=
   -- validity in any ring order; `c` lists the rings of `p` (exact values) shell first
   let order := orderOf (Spec.canon sp)
   let valid := order.isSome
-  let c := reorder (order.getD 0) (Spec.canon p)
-  let cls := s!"area-{tag}-{if valid then (if order == some 0 then "valid" else "valid-holefirst") else "invalid"}-{polyTag p}"
+  let c := reorder (shellAt order) (Spec.canon p)
+  let cls := s!"area-{tag}-{validTag order}-{polyTag p}"
   match rhs with
   | [a, o] =>
     match fvOfTok a, fvOfTok o with
@@ -157,10 +169,11 @@ def judgeArea (tag : String) (p : Poly) (rhs : Tok) : String :=
 def judgeMArea (tag : String) (mp : MPoly) (rhs : Tok) : String :=
   let smp := scaleInt mp
   let orders := (smp.map Spec.canon).map orderOf
-  let c := (mp.map Spec.canon).zipWith (fun p o => reorder (o.getD 0) p) orders
-  let valid := orders.all (·.isSome) &&
-    Spec.ValidMPoly (((smp.map Spec.canon).zipWith (fun p o => reorder (o.getD 0) p) orders)) && c.all Spec.HolesFit
-  let cls := s!"marea-{tag}-{if valid then "valid" else "invalid"}-{mpolyTag mp}"
+  let c := (mp.map Spec.canon).zipWith (fun p o => reorder (shellAt o) p) orders
+  -- every member valid (possibly with touching rings), at least one member, members apart
+  let valid := orders.all (·.isSome) && !smp.isEmpty && Spec.membersApart (smp.map Spec.canon) && c.all Spec.HolesFit
+  let touch := orders.any fun o => match o with | some (_, true) => true | _ => false
+  let cls := s!"marea-{tag}-{if valid then (if touch then "valid-touch" else "valid") else "invalid"}-{mpolyTag mp}"
   match rhs with
   | [a, o] =>
     match fvOfTok a, fvOfTok o with
@@ -184,10 +197,10 @@ def judgeMArea (tag : String) (mp : MPoly) (rhs : Tok) : String :=
 def judgeCent (tag : String) (p : Poly) (rhs : Tok) : String :=
   let order := orderOf (Spec.canon ((scaleInt [p]).headD []))
   let valid := order.isSome
-  let c := reorder (order.getD 0) (Spec.canon p)
+  let c := reorder (shellAt order) (Spec.canon p)
   let closed := p.all isClosedRing
   let inStatement := valid && closed
-  let cls := s!"cent-{tag}-{if valid then "valid" else "invalid"}-{polyTag p}{magTag p}"
+  let cls := s!"cent-{tag}-{match order with | some (_, true) => "valid-touch" | some _ => "valid" | none => "invalid"}-{polyTag p}{magTag p}"
   let r1 := pRes (rhs.takeWhile (· ≠ "|"))
   let r2 := pRes (rhs.drop ((rhs.takeWhile (· ≠ "|")).length + 1))
   let scale := maxAbs p
@@ -209,11 +222,12 @@ def judgeCent (tag : String) (p : Poly) (rhs : Tok) : String :=
 def judgeMCent (tag : String) (mp : MPoly) (rhs : Tok) : String :=
   let smp := (scaleInt mp).map Spec.canon
   let orders := smp.map orderOf
-  let c := (mp.map Spec.canon).zipWith (fun p o => reorder (o.getD 0) p) orders
-  let valid := orders.all (·.isSome) && Spec.ValidMPoly (smp.zipWith (fun p o => reorder (o.getD 0) p) orders)
+  let c := (mp.map Spec.canon).zipWith (fun p o => reorder (shellAt o) p) orders
+  let valid := orders.all (·.isSome) && !smp.isEmpty && Spec.membersApart smp
+  let touch := orders.any fun o => match o with | some (_, true) => true | _ => false
   let closed := mp.all (·.all isClosedRing)
   let inStatement := valid && closed
-  let cls := s!"mcent-{tag}-{if valid then "valid" else "invalid"}-{mpolyTag mp}{magTag mp.flatten}"
+  let cls := s!"mcent-{tag}-{if valid then (if touch then "valid-touch" else "valid") else "invalid"}-{mpolyTag mp}{magTag mp.flatten}"
   let r := pRes rhs
   let scale := maxAbs mp.flatten
   let m : Except Fault (FQ × FQ) := .ok (multiPolygonCentroid mp)
